@@ -5,7 +5,7 @@
 
 namespace {
 
-struct GStd { int kind; bool full; int variant; int p1, p2; long pref[4]; double ab_scale; };
+struct GStd { int kind; bool full; int variant; int p1, p2; long pref[9]; double ab_scale; };	// (kind 4, an n-port matrix standard, has n*n parameters)
 
 struct GSession {
     int sid = 0;
@@ -199,6 +199,16 @@ Plan cal_gen(const std::string &check, const std::string &tier, uint64_t seed, l
 		S.todo.push_back(GStd{3, shape(), (int)rng.below(2), p, q, {l11, iso < 0.15 ? -1 : l21, iso >= 0.15 && iso < 0.3 ? -1 : l21, l22}, 1.0});
 	    }
 	}
+	// a redundant n-port standard given as a full matrix of parameters through vnacal_new_add_mapped_matrix, its ports
+	// on the VNA ports in rotated order; some transmissions exactly zero (not necessarily in both directions)
+	if (P >= 2 && P <= 3 && !S.rect && !c12 && rng.chance(0.12)) {
+	    GStd st{4, true, 0, (int)rng.range(1, P), 0, {0, 0, 0, 0, 0, 0, 0, 0, 0}, 1.0};
+	    for (int i = 0; i < P; ++i) for (int j = 0; j < P; ++j) {
+		double mag = i == j ? 0.3 * rng.uni() : 0.25 + 0.35 * rng.uni(), ph = 2 * M_PI * rng.uni();
+		st.pref[i * P + j] = (i != j && rng.chance(0.2)) ? -1 : mkscalar(mag * cos(ph), mag * sin(ph), S.sid);
+	    }
+	    S.todo.push_back(st);
+	}
 	// frequency dependent standards (interpolated parameters)
 	if ((c10 || rng.chance(0.25)) && cls != W16) {
 	    int knots = (int)rng.pick(std::vector<long>{2, 3, 5, 8, 16});
@@ -210,6 +220,22 @@ Plan cal_gen(const std::string &check, const std::string &tier, uint64_t seed, l
 	    long v = mkvector(knots, (int)rng.below(3), lo, hi, S.sid);
 	    int p = (int)rng.range(1, P);
 	    S.todo.push_back(GStd{0, shape(), (int)rng.below(2), p, 0, {v, 0, 0, 0}, 1.0});
+	}
+	// a reflect correlated with a known one (vnacal_make_correlated_parameter): its sigma vector covers the band, or
+	// misses it at one end (then the standard has to be refused)
+	if ((c10 ? rng.chance(0.3) : rng.chance(0.06)) && cls != W16 && !c12) {
+	    double ph = 2 * M_PI * rng.uni(), mag = 0.3 + 0.6 * rng.uni();
+	    long other = rng.chance(0.7) ? mkscalar(mag * cos(ph), mag * sin(ph), S.sid) : mkvector((int)rng.pick(std::vector<long>{2, 3, 5}), (int)rng.below(3), S.fmin * 0.5, S.fmax * 1.6, S.sid);
+	    int n = (int)rng.pick(std::vector<long>{1, 2, 3, 5});
+	    double u = rng.uni();
+	    double lo = u < 0.7 || u >= 0.85 ? S.fmin * (0.5 + 0.45 * rng.uni()) : S.fmin * (1.1 + 0.5 * rng.uni());
+	    double hi = u < 0.85 ? S.fmax * (1.05 + 0.5 * rng.uni()) : S.fmax * (0.5 + 0.4 * rng.uni());
+	    if (hi <= lo) hi = lo * 1.5;
+	    Op o = g.mk("mkcorr", {other, n, rng.chance(0.5) ? 1 : 0}, S.sid);
+	    o.d = {lo, hi, 0.02 + 0.05 * rng.uni(), 0.02 * (2 * rng.uni() - 1), 0.02 * (2 * rng.uni() - 1)};
+	    plan.ops.push_back(o);
+	    long cp = g.nparams++;
+	    S.todo.push_back(GStd{0, shape(), (int)rng.below(2), (int)rng.range(1, P), 0, {cp, 0, 0, 0}, 1.0});
 	}
 	// an additional reflect whose value the library has to find (shared between sessions sometimes)
 	if ((cls == W8 || cls == W10 || cls == W12) && S.P <= 2 && rng.chance(c16 ? 0.3 : c20 ? 0.25 : 0.1)) {
@@ -241,12 +267,12 @@ Plan cal_gen(const std::string &check, const std::string &tier, uint64_t seed, l
 	plan.ops.push_back(o);
     };
     auto emit_add = [&](GSession &S, const GStd &st) {
-	Op o = g.mk("add", {S.sid, st.kind, st.full ? 1 : 0, st.variant, st.p1, st.p2, st.pref[0], st.pref[1], st.pref[2], st.pref[3]}, S.sid);
+	Op o = g.mk("add", {S.sid, st.kind, st.full ? 1 : 0, st.variant, st.p1, st.p2, st.pref[0], st.pref[1], st.pref[2], st.pref[3], st.pref[4], st.pref[5], st.pref[6], st.pref[7], st.pref[8]}, S.sid);
 	o.d = {st.ab_scale};
 	if (faults && rng.chance(0.05)) { Fault f; f.t = "alloc.vna"; f.n = rng.range(1, 30); o.f.push_back(f); }
 	plan.ops.push_back(o);
 	// every predefined reference materialises one table entry in the engine
-	int np = st.kind == 0 ? 1 : st.kind == 1 ? 2 : st.kind == 2 ? 0 : 4;
+	int np = st.kind == 0 ? 1 : st.kind == 1 ? 2 : st.kind == 2 ? 0 : st.kind == 3 ? 4 : S.P * S.P;
 	for (int q = 0; q < np; ++q) if (st.pref[q] < 0) ++g.nparams;
     };
 
@@ -301,7 +327,7 @@ Plan cal_gen(const std::string &check, const std::string &tier, uint64_t seed, l
 		    }
 		    continue;
 		}
-		if (!c12 && S.fv_done && rng.chance(0.15)) plan.ops.push_back(g.mk("merror", {S.sid, (long)rng.below(4), (long)rng.below(2)}, S.sid));
+		if (!c12 && S.fv_done && rng.chance(0.15)) plan.ops.push_back(g.mk("merror", {S.sid, (long)rng.below(4), (long)rng.below(2), rng.chance(0.35) ? (long)rng.range(1, 2) : 0L}, S.sid));
 		Op so = g.mk("solve", {S.sid}, S.sid);
 		if (faults && rng.chance(0.3)) { Fault f; f.t = "alloc.vna"; f.n = rng.range(1, 80); so.f.push_back(f); plan.ops.push_back(so); so.f.clear(); }
 		plan.ops.push_back(so);
